@@ -1,8 +1,8 @@
 package h
 
 import (
-	"github.com/XiXi-2024/xixi-kv/datafile"
 	"encoding/binary"
+	"github.com/XiXi-2024/xixi-kv/datafile"
 	"math/rand"
 )
 
